@@ -35,11 +35,50 @@ def points(m) -> list[dict]:
     return pts
 
 
-def run(ctx: Ctx, rep: Report, what: str) -> None:
+FRACTIONS = [0.5, -1.5, 1.25, -0.25, 0.75]
+
+
+def fractional_variants(scenarios: list[dict], limit: int) -> list[tuple[str, object]]:
+    """Members of the generated family with their numeric coefficients, plain parameter values and plain initial
+    values replaced by fractions (the integer value algebra of ModelEval cannot express those); they are judged
+    by the rational oracle like the shipped models."""
+    import copy
+
+    from ..modelkit import build_model
+
+    out = []
+    for s in scenarios:
+        c = s["c"]
+        if c["sur"] or c["data"] or c["ro"] or not c["rxn"]:
+            continue
+        if not any(co["k"] == "num" for r in c["rxn"].values() for co in r["st"].values()):
+            continue
+        c2 = copy.deepcopy(c)
+        j = s["idx"]
+        for r in c2["rxn"].values():
+            for co in r["st"].values():
+                if co["k"] == "num":
+                    co["v"] = FRACTIONS[j % len(FRACTIONS)] * (1 if co["v"] > 0 else -1) * (2 if abs(co["v"]) == 2 else 1)
+                    j += 1
+        for p in c2["pars"].values():
+            if p["k"] == "num":
+                p["v"] = p["v"] / 2
+        for v in c2["init"].values():
+            if v["k"] == "num":
+                v["v"] = v["v"] / 4
+        out.append((f"fractional[{s['idx']}]", (lambda cc=c2: build_model(cc)[0])))
+    # evenly spread over the family (exhaustive small members first, simulated rich members later)
+    if len(out) > limit:
+        step = len(out) / limit
+        out = [out[int(k * step)] for k in range(limit)]
+    return out
+
+
+def run(ctx: Ctx, rep: Report, what: str, extra: list | None = None) -> None:
     """what: 'C01' (tables and derivatives) or 'C13' (initial values, derived parameters, frozen values)."""
     cases = []
     skipped = {}
-    for name, factory in collect():
+    for name, factory in collect() + list(extra or []):
         try:
             m = factory()
             enc = Encoder()
@@ -51,8 +90,9 @@ def run(ctx: Ctx, rep: Report, what: str) -> None:
             skipped[name] = str(e)[:100]
             continue
         cases.append((name, m, pts, case))
-    if len(cases) < 10:
+    if len([c for c in cases if not c[0].startswith("fractional")]) < 10:
         raise MachineryError(f"only {len(cases)} shipped models could be encoded: {skipped}")
+    rep.notes["oracle_fractional_variants"] = len([c for c in cases if c[0].startswith("fractional")])
 
     def judge_one(item):
         name, m, pts, case = item
